@@ -171,6 +171,10 @@ def dispatch(ctx, rule='dispatch-arm-matches-case-label'):
                     if val in handled:
                         c, body = handled[val]
                         ctors = [x for x in fn.walk(body) if x['k'] in ('CXXConstructExpr', 'CXXTemporaryObjectExpr') and x.get('ctor_of') == 'Spectra::SortEigenvalue' and not x.get('copy') and not x.get('move')]
+                        if len(ctors) == 0:
+                            # another ordering idiom (keys computed up front, one std::sort with a lambda, ...): not decidable by
+                            # this rule -- neither a pass nor a violation; the comparator rule still applies to it
+                            raise AnalysisBroken('%s: case %s does not build a SortEigenvalue sorter: dispatch idiom not recognised' % (fn.qname, name))
                         if len(ctors) != 1:
                             problems.append('case %s builds %d sorters' % (name, len(ctors)))
                             continue
@@ -407,7 +411,97 @@ def both_ends(ctx, rule='bothends-interleave'):
             ctx.check(ok, rule, 'argsort/default-length', fn.qname, 'forwards (rule, values, values.size())' if ok else 'forwards %s' % show(t))
 
 
+def sort_comparators_strict(ctx, rule='sort-comparator-is-irreflexive'):
+    """std::sort and friends require a strict weak ordering; comp(a, a) must be false.  A comparator that answers true on a tie
+    (>=, <=, !(a < b)) makes the unguarded partition of introsort run past the range for more than 16 elements.  Every
+    comparator handed to a standard sorting algorithm in the library is evaluated in the TIE case -- the two compared keys are
+    equal, so `<`, `>`, `!=` between them are false and `<=`, `>=`, `==` true -- for every value of the booleans it captures;
+    it must come out false.  Functor comparators (the library's SortEigenvalue) are decided by the comparator rule."""
+    ALGOS = ('sort', 'stable_sort', 'partial_sort', 'nth_element', 'sort_heap', 'make_heap', 'lower_bound', 'upper_bound')
+    n = 0
+    for fn in ctx.F.concrete():
+        if not fn.cfg or not fn.qname.startswith('Spectra::'):
+            continue
+        for c in fn.walk():
+            if c['k'] != 'CallExpr' or c.get('callee') not in ALGOS or not (c.get('cq') or '').startswith('std::'):
+                continue
+            args = fn.call_args(c)
+            if len(args) < 3:
+                n += 1
+                ctx.ok(rule, '%s/%s' % (fn.qname.split('::')[-1], c['callee']), fn.qname, 'default operator< of the element type')
+                continue
+            comp = None
+            for y in fn.walk(args[-1]['id']):
+                if y['k'] == 'LambdaExpr':
+                    comp = y
+                    break
+            if comp is None:
+                n += 1
+                ctx.ok(rule, '%s/%s' % (fn.qname.split('::')[-1], c['callee']), fn.qname, 'functor comparator (decided by comparator-and-full-range-sort)')
+                continue
+            n += 1
+            body = [fn.nodes[k_] for k_ in comp.get('c', []) if fn.nodes[k_]['k'] == 'CompoundStmt']
+            if not body:
+                raise AnalysisBroken('%s: lambda comparator body not found' % fn.qname)
+            env = {}
+            outcomes = set()
+
+            def ev(nd, env):
+                nd = fn.strip(nd)
+                if nd is None:
+                    return {None}
+                k = nd['k']
+                if k == 'CXXBoolLiteralExpr':
+                    return {nd['val'] == 'true'}
+                if k == 'DeclRefExpr' and 'var' in nd:
+                    if nd['var'] in env:
+                        return env[nd['var']]
+                    if fn.locals[nd['var']]['type'].replace('const ', '') == 'bool':
+                        return {True, False}           # a captured flag: both values
+                    return {None}
+                if k == 'UnaryOperator' and nd.get('op') == '!':
+                    return {(None if v is None else (not v)) for v in ev(fn.nodes[nd['c'][0]], env)}
+                if k == 'BinaryOperator' and nd.get('op') in ('<', '>', '!=', '<=', '>=', '=='):
+                    return {nd['op'] in ('<=', '>=', '==')}     # tie case: both sides are the same key of equal elements
+                if k == 'BinaryOperator' and nd.get('op') in ('&&', '||'):
+                    out = set()
+                    for a in ev(fn.nodes[nd['c'][0]], env):
+                        for b in ev(fn.nodes[nd['c'][1]], env):
+                            if nd['op'] == '&&':
+                                out.add(False if (a is False or b is False) else (None if (a is None or b is None) else True))
+                            else:
+                                out.add(True if (a is True or b is True) else (None if (a is None or b is None) else False))
+                    return out
+                if k == 'ConditionalOperator':
+                    out = set()
+                    for cv in ev(fn.nodes[nd['c'][0]], env):
+                        if cv is None or cv:
+                            out |= ev(fn.nodes[nd['c'][1]], env)
+                        if cv is None or not cv:
+                            out |= ev(fn.nodes[nd['c'][2]], env)
+                    return out
+                if k == 'CXXOperatorCallExpr' and nd.get('op') in ('<', '>', '!=', '<=', '>=', '=='):
+                    return {nd['op'] in ('<=', '>=', '==')}
+                return {None}
+            for st in fn.kids(body[0]):
+                if st['k'] == 'DeclStmt':
+                    for d in st['decls']:
+                        if 'init' in d and 'var' in d:
+                            env[d['var']] = ev(fn.nodes[d['init']], env)
+                elif st['k'] == 'ReturnStmt':
+                    outcomes |= ev(fn.nodes[st['value']], env)
+            inst = '%s/%s(lambda)' % (fn.qname.split('::')[-1], c['callee'])
+            if None in outcomes:
+                raise AnalysisBroken('%s: lambda comparator outside the order domain (%s)' % (fn.qname, fn.s(comp['id'])[:60]))
+            ctx.check(True not in outcomes and bool(outcomes), rule, inst, fn.qname,
+                      'false on a tie for every value of the captured flags' if True not in outcomes and outcomes else
+                      'the comparator `%s` answers TRUE for two elements with equal keys (for some value of its captured flags): not a strict weak ordering; std::sort may read and write outside the range for more than 16 elements with ties' % fn.s(comp['id'])[:110])
+    if n < 1:
+        raise AnalysisBroken('no standard sorting call found')
+
+
 def run(ctx):
+    sort_comparators_strict(ctx)
     keys(ctx)
     dispatch(ctx)
     comparator(ctx)
